@@ -144,7 +144,8 @@ def run(ctx):
     else:
         hot = {"valid", "name_one", "name_two", "name_empty", "neg_from", "empty_req"}
         settings_rpcs = {t["name"] for t in table if "pattern" in t["feats"]}     # followed by a probe of a matching swamp
-        pick = lambda c: c["shape"] in hot or c["rpc"] in known["creates"] or c["rpc"] in settings_rpcs
+        committed = known["panic_name"] | known["panic_from"] | known["dead"] | known["zero"]     # the committed witnesses are always replayed
+        pick = lambda c: c["shape"] in hot or c["rpc"] in known["creates"] or c["rpc"] in settings_rpcs or (c["rpc"], c["shape"]) in committed
         must = [c for c in allcases if pick(c)]
         rest = [c for c in allcases if not pick(c)]
         cases = must + rng.sample(rest, min(len(rest), 260))
